@@ -23,6 +23,9 @@ CHECKS = {
  "C14": ("differential monitor of the public Lexer against expectations known by construction, cross-checked by an independent reference lexer; llvm-tblgen audit of the generator",
          "Exploration: exhaustive (representative x separator x representative) triples over all keywords, all reference bang operators, all punctuation and boundary literals with 10 separators incl. nested block comments; random sequences of instances sampled from each class's regular language (quick 1.5e5, thorough 1e7 tokens); the 39 corpus files token-by-token against reflex.rs.",
          "reflex.rs / the generator embody the reference's token grammar (LLVM TGLexer for corners); tblgen 14 audits a sample of literal instances; 0x/0b-like digit-leading identifiers and code bodies ending in '}' are not generated (LLVM corner cases)", "5/C14"),
+ "C20": ("closure monitor: completion answers re-lexed and re-parsed by the server's own lexer/parser; class completion compared with generated workspaces",
+         "Exploration, exhaustive over the finite vocabularies: all items offered at 9 fixtures x the lexer's tables, both directions (offered => lexes as that token and starts an accepted statement; lexer-accepted operator => offered); class completion on random workspaces (root + include, arities 0-3, every prefix length, open and closed statements). Eight table defects are listed as known findings because the table is pinned by a snapshot test.",
+         "independent name tables spelling -> token kind; candidate operator names = reference list + variants + everything offered", "5/C20"),
 }
 NOT_YET = "check under construction in this session; not claimed yet"
 
